@@ -45,9 +45,10 @@ Qed.
 Lemma eval_tm_ext : forall t look look',
   (forall x, In x (vars t) -> look x = look' x) -> eval_tm look t = eval_tm look' t.
 Proof.
-  induction t as [z|x|a IHa b IHb|a IHa b IHb|a IHa b IHb t IHt e IHe]; intros look look' H; cbn [eval_tm].
+  induction t as [z|x|o|a IHa b IHb|a IHa b IHb|a IHa b IHb t IHt e IHe]; intros look look' H; cbn [eval_tm].
   - reflexivity.
   - apply H. left. reflexivity.
+  - reflexivity.
   - cbn [vars] in H. rewrite (IHa look look'), (IHb look look'); [reflexivity| |];
       intros x Hx; apply H; rewrite !in_app_iff; tauto.
   - cbn [vars] in H. rewrite (IHa look look'), (IHb look look'); [reflexivity| |];
@@ -57,10 +58,16 @@ Proof.
       intros x Hx; apply H; rewrite !in_app_iff; tauto.
 Qed.
 
+Lemma eval_src_ext : forall s look look',
+  (forall x, In x (svars s) -> look x = look' x) -> eval_src look s = eval_src look' s.
+Proof.
+  intros [t|l] look look' H; cbn [eval_src]; [apply eval_tm_ext; exact H | reflexivity].
+Qed.
+
 (* ------------------------------------------------------------------------- the equivalence *)
 Inductive sb_sim : sbody -> sbody -> Prop :=
 | sim_leaf : forall sc sc' t,
-    (forall x, In x (vars t) -> mem x sc = mem x sc') -> sb_sim (SLeaf sc t) (SLeaf sc' t)
+    (forall x, In x (svars t) -> mem x sc = mem x sc') -> sb_sim (SLeaf sc t) (SLeaf sc' t)
 | sim_merge : forall l l' r r', sb_sim l l' -> sb_sim r r' -> sb_sim (SMerge2 l r) (SMerge2 l' r').
 
 Definition osb_sim (o o' : option sbody) : Prop :=
@@ -148,7 +155,7 @@ Lemma seval_sim : forall b b', sb_sim b b' -> forall look look',
   (forall x, look x = look' x) -> seval_body look b = seval_body look' b'.
 Proof.
   induction 1 as [sc sc' t H|l l' r r' Hl IHl Hr IHr]; intros look look' Hlook; cbn [seval_body].
-  - apply eval_tm_ext. intros x Hx. unfold scoped. rewrite (H x Hx), Hlook. reflexivity.
+  - apply eval_src_ext. intros x Hx. unfold scoped. rewrite (H x Hx), Hlook. reflexivity.
   - rewrite (IHl look look' Hlook), (IHr look look' Hlook). reflexivity.
 Qed.
 
